@@ -5,6 +5,8 @@ import (
 	"fmt"
 	"os"
 	"path/filepath"
+	"strconv"
+	"strings"
 	"time"
 
 	txfile "github.com/elastic/go-txfile"
@@ -32,7 +34,8 @@ type LockParams struct {
 	Writers  []string `json:"writers"` // ending per writer: commit | rollback | close | commitfail
 	Readers  int      `json:"readers"`
 	Closer   bool     `json:"closer"`
-	HoldForR bool     `json:"hold_for_readers"` // writers keep their transaction open until all readers have begun
+	RaceSame bool     `json:"race_same,omitempty"` // race-detector pass at the full preemption bound
+	HoldForR bool     `json:"hold_for_readers"`    // writers keep their transaction open until all readers have begun
 }
 
 func (p LockParams) String() string {
@@ -333,6 +336,9 @@ func lockScenarios(quick bool) (ps []interface{}, names []string) {
 		add(LockParams{Cfg: "A", Pre: pre, Writers: []string{"commit"}, Readers: 1})
 	}
 	add(LockParams{Cfg: "A", Pre: "plain", Writers: []string{"commit", "commit"}})
+	// a reader that is parked while the first commit runs and woken while the second one starts:
+	// the race pass runs at the same bound here (the reader must not get in during the second commit)
+	add(LockParams{Cfg: "A", Pre: "plain", Writers: []string{"commit", "commit"}, Readers: 1, RaceSame: true})
 	add(LockParams{Cfg: "A", Pre: "plain", Writers: []string{"commit", "rollback"}, Readers: 1})
 	add(LockParams{Cfg: "A", Pre: "plain", Writers: []string{"commitfail", "commit"}, Readers: 1})
 	add(LockParams{Cfg: "A", Pre: "plain", Writers: []string{"commit"}, Readers: 1, Closer: true})
@@ -359,6 +365,19 @@ func runC09(ctx *core.Ctx, pool *par.Pool) {
 		ctx.SetBudget(15 * time.Minute)
 	}
 	ps, names := lockScenarios(ctx.Quick())
+	if only := os.Getenv("VERIF_C09_ONLY"); only != "" { // debugging aid: one scenario, optional bound override
+		var ps2 []interface{}
+		var names2 []string
+		for i, n := range names {
+			if strings.Contains(n, only) {
+				ps2, names2 = append(ps2, ps[i]), append(names2, n)
+			}
+		}
+		ps, names = ps2, names2
+		if b, err := strconv.Atoi(os.Getenv("VERIF_C09_BOUND")); err == nil {
+			small, large = b, b
+		}
+	}
 	bounds := func(i int) explore.Bounds {
 		p := ps[i].(LockParams)
 		n := len(p.Writers) + p.Readers
@@ -375,7 +394,7 @@ func runC09(ctx *core.Ctx, pool *par.Pool) {
 	if rp := racePool(ctx); rp != nil {
 		rb := func(i int) explore.Bounds {
 			b := bounds(i)
-			if b.Preempt > 0 {
+			if b.Preempt > 0 && !ps[i].(LockParams).RaceSame {
 				b.Preempt--
 			}
 			return b
